@@ -44,6 +44,16 @@ CLAIMED = {
         note="Partial: only the Write-result clauses are theorems; framing/decoding is differential + oracle. Known finding D9 (HTTP/1.0 Flush before last Write). "
              "ReadFrom/Sendfile path not covered. Trusted: Coq kernel, extraction, OCaml driver, Go harness, net/http's client parser.",
         design="4/C09, Appendix C, O"),
+    "C10": dict(
+        technique="Coq proof by composition (C06 segmentation + C07 round trip + response writer model) for the server; invariant over all histories for the client callback queue; end-to-end oracle on real servers/clients",
+        text="coq/server/C10.v: (1) for every pipelined sequence of well-formed body-less requests, every segmentation and every handler, the bytes a connection writes are the concatenation in request order "
+             "of each request's own answer (one answer per request, in order); (2) for the client connection's pending-handler queue, in every history of Do / response / close / failed send / recycle: "
+             "callbacks invoked so far ++ pending = submitted requests in submission order (never twice, FIFO), and after a close nothing is pending (exactly once). "
+             "Decided on every run by the end-to-end oracle: real nbhttp server in IOMod x epoll-mode cells, up to 24 concurrent raw pipelining connections + net/http clients + nbhttp.Client, "
+             "responses identified per connection and request (sizes around 64 KiB), order, exactly-once, isolation, keep-alive/close behaviour.",
+        note="Partial: requests with bodies, the close decision and cross-connection isolation are oracle-checked, not theorems (isolation in the model is by construction; shared state in the code = buffer pools, see C11/C20). "
+             "TLS cells not yet in the matrix. Known finding D16 (Connection: close truncates a large response to a slow reader).",
+        design="4/C10"),
     "C18": dict(
         technique="Coq proof (invariant over all histories of a transition system for Stop + wait group + Async queue; bounded-progress termination; refutation witness) + verified log checker run on real engines + watchdog/leak oracle",
         text="coq/stop: Engine.Stop, the open-connection wait group and the Async queue as a transition system over connection ids. Theorems for every history: the wait group equals "
@@ -76,8 +86,13 @@ def load_plugins():
     import sys
     sys.path.insert(0, os.path.join(ROOT, "lib"))
     for f in sorted(glob.glob(os.path.join(ROOT, "lib", "props_*.py"))):
-        m = importlib.import_module(os.path.basename(f)[:-3])
-        CLAIMED.update(getattr(m, "MANIFEST", {}))
+        try:
+            m = importlib.import_module(os.path.basename(f)[:-3])
+        except Exception as e:
+            print("WARNING: %s does not load: %s" % (f, e))
+            continue
+        if getattr(m, "READY", False):  # set by the lead once the component is integrated and quiet on the unchanged tree
+            CLAIMED.update(getattr(m, "MANIFEST", {}))
 
 
 def main():
